@@ -95,6 +95,31 @@ def helper_role(path):
     return role
 
 
+_PARAM_ROLE = {}
+
+
+def register_params(f):
+    """roles of an accessor's parameters by TYPE (names are free): the byte slice, the probe byte, and the one usize that is the
+    transition index when a node is passed along, the transition count otherwise"""
+    if f is None:
+        return
+    has_node = any('raw::node::Node<' in f.local_ty(l) for l in range(1, f.arg_count + 1))
+    for l in range(1, f.arg_count + 1):
+        ty = f.local_ty(l)
+        nm = f.local_name(l)
+        if ty == 'u8':
+            _PARAM_ROLE[(nm, l, f.path)] = 'B'
+        elif ty == 'usize':
+            _PARAM_ROLE[(nm, l, f.path)] = 'I' if has_node else 'NT'
+        elif ty.endswith('[u8]'):
+            _PARAM_ROLE[(nm, l, f.path)] = 'DATA'
+    _PARAM_ROLE['cur'] = f.path
+
+
+def param_role(e):
+    return _PARAM_ROLE.get((e[1], e[2], _PARAM_ROLE.get('cur')))
+
+
 def rlin(e):
     """linear form of a reader offset expression over the named atoms, or None"""
     if not isinstance(e, tuple):
@@ -122,11 +147,14 @@ def rlin(e):
     if h == 'field' and e[1][0] == 'param':
         return {'start': START, 'ntrans': NT}.get(e[2])
     if h == 'param':
+        r = param_role(e)
+        if r in ('NT', 'I', 'B'):
+            return {'NT': NT, 'I': I, 'B': B}[r]
         return {'ntrans': NT, 'i': I, 'b': B}.get(e[1])
-    if h == 'len' and e[1][0] == 'param' and e[1][1] == 'data':
+    if h == 'len' and e[1][0] == 'param' and (param_role(e[1]) == 'DATA' or e[1][1] == 'data'):
         return START + C(1)
     if h == 'call' and isinstance(e[1], str):
-        if e[1].endswith('<impl [T]>::len') and e[2][0][0] == 'param' and e[2][0][1] == 'data':
+        if e[1].endswith('<impl [T]>::len') and e[2][0][0] == 'param' and (param_role(e[2][0]) == 'DATA' or e[2][0][1] == 'data'):
             return START + C(1)
         if _LIB[0] is not None and e[1] in _LIB[0].fns:
             r = helper_role(e[1])
@@ -146,7 +174,7 @@ def byte_index(e):
         return byte_index(e[1])
     if e[0] == 'index' and isinstance(e[2], tuple):
         base = e[1]
-        if (base[0] == 'param' and base[1] == 'data') or (base[0] == 'field' and base[2] == 'data'):
+        if (base[0] == 'param' and (param_role(base) == 'DATA' or base[1] == 'data')) or (base[0] == 'field' and base[2] == 'data'):
             return e[2]
     return None
 
@@ -155,7 +183,7 @@ def slice_from(e):
     """for &data[at..] return at"""
     if is_call(e, 'Index<I> for [T]>::index') and e[2][1][0] == 'agg' and e[2][1][1].endswith('RangeFrom'):
         base = e[2][0]
-        if (base[0] == 'param' and base[1] == 'data') or (base[0] == 'field' and base[2] == 'data'):
+        if (base[0] == 'param' and (param_role(base) == 'DATA' or base[1] == 'data')) or (base[0] == 'field' and base[2] == 'data'):
             return dict(e[2][1][2]).get('start')
     return None
 
@@ -181,6 +209,7 @@ def mirrored(e, is_pos):
 def rets(f, havoc=False):
     """returning paths with the cases hidden in std combinators made explicit (vsplit); local helpers stay opaque calls"""
     import vsplit
+    register_params(f)
     if _LIB[0] is not None:
         return vsplit.vpaths(_LIB[0], f, enter=False, havoc=havoc)
     return [p for p in explore(f, max_visits=1, havoc=havoc) if p.end == 'return']
@@ -257,6 +286,7 @@ def run(ctx, R, R2):
                 by_role = [g for g in lib.fn_list if helper_role(g.path) == {'ntrans_len': 'NL', 'input_len': 'IL', 'trans_index_size': 'IX'}.get(path.rsplit('::', 1)[-1]) and g.impl and g.impl['self_ty'] == path.rsplit('::', 2)[-2].join(['raw::node::', ''])]
                 return by_role[0] if by_role else None
             ctx.missing(R, 'anchor:' + path, 'accessor %s not found' % path)
+        register_params(f)
         return f
 
     def check_at(name, f, got, want, what):
@@ -418,7 +448,7 @@ def run(ctx, R, R2):
                 elif rv[0] == 'agg' and rv[1].endswith('::Some'):
                     # explicit loop with early return
                     scan['form'] = scan['form'] or 'loop'
-                    d = [x for x in p.decisions if x[2][0] == 'bin' and x[2][1] == 'Eq' and x[3] == 1 and any(y[0] == 'param' and y[1] == 'b' for y in walk(x[2]))]
+                    d = [x for x in p.decisions if x[2][0] == 'bin' and x[2][1] == 'Eq' and x[3] == 1 and any(y[0] == 'param' and (param_role(y) == 'B' or y[1] == 'b') for y in walk(x[2]))]
                     scan['eq'] = scan['eq'] or bool(d)
                     if mirrored(rv[2][0][1], lambda x: x[0] == 'field' and x[2] == '0' and any(is_call(y, '::next') for y in walk(x))):
                         src = None
